@@ -112,6 +112,7 @@ LEAVES = {
     "newtype_int": (tmod.NTInt, [tmod.NTInt(5), tmod.NTInt(-6)], "int"),
     "sertype": (tmod.Pt, [tmod.Pt(1, 2), tmod.Pt("a", None)], "list"),
     "asertype": (tmod.APt, [tmod.APt(dt.date(2020, 1, 2))], "dict"),
+    "abag": (tmod.Bag, [tmod.Bag([1, 2]), tmod.Bag([])], "list"),
     "literalstring": (typing_extensions.LiteralString, ["", "ls"], "str"),
     "strsub": (tmod.SE, [tmod.SE.P], "str"),  # placeholder, replaced below
 }
